@@ -229,9 +229,10 @@ where linearizeList : List Tr → List Tr
   | [] => []
   | t :: r => linearize t ++ linearizeList r
 
-/-- `t1 | t2` (`__or__` / `__ror__`) -/
+/-- `t1 | t2` (`__or__` / `__ror__`): the two operands' own transformer lists, concatenated
+(`as_distinct(imply_deps=False)`); dependencies are implied when the composition is applied -/
 def Tr.or (a b : Tr) : Tr :=
-  .comp (linearize a ++ (match b with | .comp tb => tb | b => [b]))
+  .comp ((match a with | .comp ta => ta | a => [a]) ++ (match b with | .comp tb => tb | b => [b]))
 
 /-- `__eq__` restricted to what the reduction uses: only an idempotent transformer equal to its
 predecessor is dropped, and only `RemoveRedundantGates` is idempotent -/
